@@ -22,6 +22,10 @@ func main() {
 		n = 1500
 	}
 	vlib.ExecConformance(c, "C01", bins, vs, rand.New(rand.NewSource(vlib.Seed())), n, vlib.ExecMode{Faults: true, DirFaults: true, Corpus: vlib.MergeCorpus("C01")})
+	// subscriptions: every event of the stream is completed like a query result of the field
+	vlib.ExecConformance(c, "C01s", bins, vs, rand.New(rand.NewSource(vlib.Seed()+1)), n/4,
+		vlib.ExecMode{Faults: true, DirFaults: true, Subs: true, PlansPer: 3,
+			Module: "GqlSubTrace", Config: "GqlSubTrace.cfg", Lines: vlib.SubTraceLines})
 	fmt.Fprintln(os.Stderr, "done")
 	c.Finish()
 }
